@@ -90,3 +90,28 @@ func Tail(b []byte, n int) string {
 	}
 	return string(b)
 }
+
+// Diag returns the part of stderr that explains a failure: from the first
+// "panic:" / "fatal error:" / level=fatal line when there is one (up to n
+// bytes), else the tail.
+func Diag(b []byte, n int) string {
+	s := string(b)
+	for _, mark := range []string{"panic: ", "fatal error: ", "level=fatal", "level=panic"} {
+		if i := indexOf(s, mark); i >= 0 {
+			if len(s)-i > n {
+				return s[i : i+n]
+			}
+			return s[i:]
+		}
+	}
+	return Tail(b, n)
+}
+
+func indexOf(s, sub string) int {
+	for i := 0; i+len(sub) <= len(s); i++ {
+		if s[i:i+len(sub)] == sub {
+			return i
+		}
+	}
+	return -1
+}
